@@ -31,6 +31,7 @@ type CloudWatch struct {
 
 	baseRoute
 	buf      chan []byte
+	shutdown chan struct{} // closed by Shutdown. buf itself is never closed: a Dispatch may still be in flight
 	blocking bool
 	dispatch func(chan []byte, []byte, metrics.Gauge, metrics.Counter)
 
@@ -61,6 +62,7 @@ func NewCloudWatch(key string, matcher matcher.Matcher, awsProfile, awsRegion, a
 		putMetricDataInput: cloudwatch.PutMetricDataInput{Namespace: aws.String(awsNamespace)},
 		baseRoute:          baseRoute{sync.Mutex{}, atomic.Value{}, key},
 		buf:                make(chan []byte, bufSize),
+		shutdown:           make(chan struct{}),
 		blocking:           blocking,
 		bufSize:            bufSize,
 		flushMaxSize:       flushMaxSize,
@@ -125,13 +127,17 @@ func (r *CloudWatch) run() {
 		cnt = 0
 	}
 
+	shutdown := r.shutdown
 	for {
+		// after Shutdown: handle what is still buffered, flush and stop
+		if shutdown == nil && len(r.buf) == 0 {
+			flush()
+			return
+		}
 		select {
-		case buf, ok := <-r.buf:
-			if !ok {
-				flush()
-				return
-			}
+		case <-shutdown:
+			shutdown = nil
+		case buf := <-r.buf:
 			r.numBuffered.Dec(1)
 
 			// Parse metric data
@@ -207,6 +213,12 @@ func (r *CloudWatch) publish(metricData cloudwatch.PutMetricDataInput, cnt int) 
 
 // Dispatch is called to submit metrics. They will be in graphite 'plain' format no matter how they arrived.
 func (r *CloudWatch) Dispatch(buf []byte) {
+	select {
+	case <-r.shutdown:
+		// a dispatcher that still holds a table snapshot with this route in it. nothing reads buf anymore
+		return
+	default:
+	}
 	r.dispatch(r.buf, buf, r.numBuffered, r.numDropBuffFull)
 }
 
@@ -218,7 +230,7 @@ func (r *CloudWatch) Flush() error {
 
 // Shutdown stops the CloudWatch publisher and returns with the publisher has finished in-flight work
 func (r *CloudWatch) Shutdown() error {
-	close(r.buf)
+	close(r.shutdown)
 	return nil
 }
 
